@@ -34,8 +34,12 @@ pub(crate) fn init_globals() {
 }
 
 pub(crate) fn make_config(data_dir: &str, token_expiry_seconds: u64) -> Config {
+    make_config_cluster(data_dir, token_expiry_seconds, "[]")
+}
+
+pub(crate) fn make_config_cluster(data_dir: &str, token_expiry_seconds: u64, cluster: &str) -> Config {
     let mut c = crate::config::from_str(&format!(
-        "bind: \":::3000\"\naddress: \"http://localhost:3000\"\nbasepath: \"\"\nadmin: admin\nlog_level: OFF\ndata_dir: {data_dir}\npepper_path: \"\"\ntls_certificate: \"\"\ntls_key: \"\"\ntls_root: \"\"\ncluster_token: cluster\ncluster_heartbeat_timeout_ms: 1000\ncluster_term_timeout_ms: 3000\ncluster: []\ntoken_expiry_seconds: {token_expiry_seconds}\n"
+        "bind: \":::3000\"\naddress: \"http://localhost:3000\"\nbasepath: \"\"\nadmin: admin\nlog_level: OFF\ndata_dir: {data_dir}\npepper_path: \"\"\ntls_certificate: \"\"\ntls_key: \"\"\ntls_root: \"\"\ncluster_token: cluster\ncluster_heartbeat_timeout_ms: 1000\ncluster_term_timeout_ms: 3000\ncluster: {cluster}\ntoken_expiry_seconds: {token_expiry_seconds}\n"
     ))
     .expect("config");
     c.data_dir = data_dir.to_string();
@@ -46,7 +50,15 @@ pub(crate) fn make_config(data_dir: &str, token_expiry_seconds: u64) -> Config {
 impl Server {
     /// Builds the whole server state from `data_dir` (only durable state survives a restart).
     pub async fn start(data_dir: &str, token_expiry_seconds: u64) -> Result<Server, String> {
-        let config = make_config(data_dir, token_expiry_seconds);
+        Self::start_with(make_config(data_dir, token_expiry_seconds)).await
+    }
+
+    /// Node 0 of a three-node cluster whose peers never answer (the driver plays the leader).
+    pub async fn start_follower(data_dir: &str) -> Result<Server, String> {
+        Self::start_with(make_config_cluster(data_dir, 3600, "[http://localhost:3000, http://localhost:3001, http://localhost:3002]")).await
+    }
+
+    pub async fn start_with(config: Config) -> Result<Server, String> {
         let (shutdown, _) = broadcast::channel::<()>(1);
         let e = |x: crate::server_error::ServerError| x.description;
         let server_db = crate::server_db::new(&config, shutdown.subscribe()).await.map_err(e)?;
